@@ -266,6 +266,20 @@ def parse_rpfm(data):
     return session, kind, host, port, body, rest
 
 
+def parse_rpfm_prefix(raw):
+    """Parse a frame of which only a prefix was kept: -> (kind, host, port, body_len, body_prefix)"""
+    if len(raw) < 12:
+        raise ParseError("short rpfm")
+    magic, session, al, bl = struct.unpack(">IIHH", raw[:12])
+    if magic != RPFM:
+        raise ParseError("bad magic")
+    if len(raw) < 12 + al:
+        raise ParseError("attr cut")
+    hdr = struct.pack(">IIHH", RPFM, session, al, 0) + raw[12:12 + al]
+    _, kind, host, port, _, _ = parse_rpfm(hdr)
+    return kind, host, port, bl, raw[12 + al:]
+
+
 def quic_fragments(frame_bytes, mtu, frag_id):
     """Split like the documented fragment header: id:u16 total:u8 seq:u8."""
     size = mtu - 4
